@@ -44,7 +44,9 @@ def _seed_variants(prop: str) -> list:
         except Exception:
             continue
         det = str(m.get("detected_by", "")).upper()
-        if m.get("property") != prop or det.startswith("NOT DETECTED"):
+        # a seed written against one property can sit in the mechanism of another (a journaling wrapper that breaks sort()): it is
+        # replayed under the property whose check reports it (`replay_under`)
+        if (m.get("replay_under") or m.get("property")) != prop or det.startswith("NOT DETECTED"):
             continue
         # a seed that a later fix: commit of the library made harmless (its demonstration passes) is a twin: it must be silent
         neutral = det.startswith("NEUTRALISED")
